@@ -221,7 +221,7 @@ def step (s : HState) (name : String) (args impl : List String) : Except String 
         let (st', err) := setBacking sha (s.ms.size + 1) s.ms id n'
         let m := match err with | none => "ok" | some e => render (outOfErr e)
         pure ({ s with ms := st', partialTree := true }, m, if impl == ["panic"] then "FAIL:panic" else "ok")
-  | "snap", _ => return (s, "ok", if impl == ["ok"] then "ok" else "FAIL:snapshot")
+  | "snap", _ :: h1 :: _ => withId h1 fun _ => pure (s, "ok", if impl == ["ok"] then "ok" else "FAIL:snapshot")
   | "chk", _ => return (s, "ok same", if impl == ["ok", "same"] then "ok" else "FAIL:old-version-changed")
   | "memo", h1 :: _ =>
     withId h1 fun _ => pure (s, "ok bad=0", if impl == ["ok", "bad=0"] then "ok" else "FAIL:stale-memoised-root")
